@@ -609,6 +609,12 @@ def check_case(case):
             except (KeyError, ZeroDivisionError, ValueError):
                 pass
             tol = max([allowance(o, p, digits) for o in outs] + [Fraction(1, 10 ** 9)]) * 2
+            # a coefficient that rounds to zero takes its whole term out of the output (0.0004 x^3 at 1 decimal): the
+            # rounding may have happened in the input's own form, so the input's propagated bound counts as well
+            try:
+                tol = max([tol] + [pr[1] * 2 for pr in (propagated(c, p, half) for c in eqs + conds) if pr is not None])
+            except (KeyError, ZeroDivisionError, ValueError):
+                pass
             try:
                 near = any(abs(delta(c, p)) <= tol and not _is_eq(c) for c in conds) or any(abs(delta(o, p)) <= tol for o in outs if not _is_eq(o))
                 vout = [_truth(o, p, tol if _is_eq(o) else Fraction(0)) for o in outs]
